@@ -24,7 +24,8 @@ import tempfile
 import time
 
 VERIF = os.path.dirname(os.path.dirname(os.path.abspath(__file__)))
-REPO = os.environ.get("VERIF_REPO", "/repo")
+REPO = os.path.abspath(os.environ.get("VERIF_REPO", "/repo"))
+PRIVATE = REPO != "/repo"   # a private worktree (mutation experiments): Gen/ is not regenerated, harness built from a copy
 COQ = os.path.join(VERIF, "coq")
 BUILD = os.path.join(VERIF, "build")
 BIN = os.path.join(BUILD, "bin")
@@ -98,9 +99,15 @@ def strip_coq_comments(text):
 def known_findings(pid):
     """-> (dict key->desc of `finding:` entries, list of `fixed:` lines) for the property."""
     finds, fixed = {}, []
-    if not os.path.exists(KNOWN):
-        return finds, fixed
-    for line in open(KNOWN):
+    lines = []
+    if os.path.exists(KNOWN):
+        lines += open(KNOWN).readlines()
+    d = os.path.join(VERIF, "known_findings.d")
+    if os.path.isdir(d):
+        for f in sorted(os.listdir(d)):
+            if f.endswith(".txt"):
+                lines += open(os.path.join(d, f)).readlines()
+    for line in lines:
         line = line.strip()
         if not line or line.startswith("#"):
             continue
@@ -202,6 +209,9 @@ class Ctx:
     # ---------------------------------------------------------------- K-gen
     def regen(self, gens):
         """Run the translator for the named generators; Gen/*.v are rewritten only if changed."""
+        if PRIVATE:
+            self.log("VERIF_REPO=%s: regen skipped (coq/Gen is shared and stays generated from /repo)" % REPO)
+            return True
         with Lock("build"):
             os.makedirs(BIN, exist_ok=True)
             rc, out = sh(["go", "build", "-o", os.path.join(BIN, "translator"), "."], cwd=TRANSLATOR, env=GOENV, timeout=600)
@@ -355,6 +365,8 @@ class Ctx:
     def harness(self, name, tags="verif", race=False, timeout=900):
         """go build harness/cmd/<name> against /repo's working tree; returns the binary path."""
         exe = os.path.join(BIN, "h_" + name + ("_race" if race else ""))
+        if PRIVATE:
+            return self._harness_private(name, tags, race, timeout)
         with Lock("build"):
             self.sync_gosum()
             cmd = ["go", "build", "-tags", tags, "-o", exe]
@@ -363,6 +375,26 @@ class Ctx:
                 cmd.insert(2, "-race")
                 env["CGO_ENABLED"] = "1"
             rc, out = sh(cmd + ["./cmd/" + name], cwd=HARNESS, env=env, timeout=timeout)
+        if rc != 0:
+            raise RuntimeError("harness build failed for %s:\n%s" % (name, out[-3000:]))
+        return exe
+
+    def _harness_private(self, name, tags, race, timeout):
+        tag = sha(REPO)
+        hdir = os.path.join(BUILD, "harness_" + tag)
+        exe = os.path.join(BIN, "h_%s_%s%s" % (name, tag, "_race" if race else ""))
+        with Lock("build_" + tag):
+            shutil.rmtree(hdir, ignore_errors=True)
+            shutil.copytree(HARNESS, hdir)
+            gm = open(os.path.join(hdir, "go.mod")).read().replace("=> /repo", "=> " + REPO)
+            open(os.path.join(hdir, "go.mod"), "w").write(gm)
+            shutil.copy(os.path.join(REPO, "go.sum"), os.path.join(hdir, "go.sum"))
+            cmd = ["go", "build", "-tags", tags, "-o", exe]
+            env = dict(GOENV)
+            if race:
+                cmd.insert(2, "-race")
+                env["CGO_ENABLED"] = "1"
+            rc, out = sh(cmd + ["./cmd/" + name], cwd=hdir, env=env, timeout=timeout)
         if rc != 0:
             raise RuntimeError("harness build failed for %s:\n%s" % (name, out[-3000:]))
         return exe
